@@ -135,6 +135,51 @@ func init() {
 		}
 		return Value{T: tString, S: app("sprintf", args...)}, true
 	}
+	// rand.Shuffle(n, swap): the slices captured by the swap closure are permuted.
+	models["math/rand.Shuffle"] = func(x *Exec, s *State, in ssa.Instruction, a []Value, c *ssa.CallCommon) (Value, bool) {
+		fv := a[1]
+		if fv.Fn == nil {
+			panic(unsupported("rand.Shuffle with an unknown swap function"))
+		}
+		n := a[0].S
+		for _, b := range fv.Fn.Bindings {
+			pt, ok := b.T.Underlying().(*types.Pointer)
+			if !ok {
+				continue
+			}
+			st, ok := pt.Elem().Underlying().(*types.Slice)
+			if !ok {
+				continue
+			}
+			sl := s.load(b)
+			prefix := "E:" + typeKey(st.Elem())
+			perm := x.fresh("perm", sInt) // names only; functions declared below
+			pf, pinv := "perm_"+perm, "pinv_"+perm
+			x.declareFun(pf, []string{sInt}, sInt)
+			x.declareFun(pinv, []string{sInt}, sInt)
+			for _, l := range s.regLeaves(prefix, st.Elem(), true) {
+				key := prefix + l.Path
+				x.frameCheck(s, key, sl.F[0].S, in)
+				old := s.read(s.heap, key, sl.F[0].S)
+				na := x.fresh("shuf", arrSort(sInt, l.Sort))
+				off := sl.F[1].S
+				u := &universal{vars: []AnyVar{{"i", ""}}, types: []types.Type{types.Typ[types.Int]}, sorts: []string{sInt}, done: map[string]bool{}}
+				u.gen = func(st *State, ch []string) string {
+					t := ch[0]
+					inr := and(app("<=", "0", t), app("<", t, n))
+					fwd := and(eq(sel(na, app("+", off, t)), sel(old, app("+", off, app(pf, t)))), app("<=", "0", app(pf, t)), app("<", app(pf, t), n), eq(app(pinv, app(pf, t)), t))
+					bwd := and(eq(sel(na, app("+", off, app(pinv, t))), sel(old, app("+", off, t))), app("<=", "0", app(pinv, t)), app("<", app(pinv, t), n), eq(app(pf, app(pinv, t)), t))
+					return and(imp(inr, and(fwd, bwd)), imp(not(inr), eq(sel(na, app("+", off, t)), sel(old, app("+", off, t)))))
+				}
+				u.more = func(ch []string) []string { return []string{app(pinv, ch[0]), app(pf, ch[0])} }
+				s.univ = append(s.univ, u)
+				s.instantiate(u)
+				s.writeWhole(key, sl.F[0].S, na)
+			}
+		}
+		return Value{}, true
+	}
+	modelModKeys["math/rand.Shuffle"] = func(x *Exec, s *State) []string { return []string{"*"} }
 	models["bytes.Compare"] = func(x *Exec, s *State, in ssa.Instruction, a []Value, c *ssa.CallCommon) (Value, bool) {
 		sa, sb := x.bytesStr(s, s.heap, a[0]), x.bytesStr(s, s.heap, a[1])
 		return Value{T: tInt, S: ite(app("str.<", sa, sb), "(- 1)", ite(eq(sa, sb), "0", "1"))}, true
